@@ -7,6 +7,9 @@
 //	R6  queue-capacity constants used as call args     -> simhook.Knob("NAME", NAME)
 //	R8  net.ResolveUDPAddr / net.ResolveIPAddr          -> simhook.Resolve… (IP literals resolve as
 //	    in package net; host names are answered by the simulator's resolver, never by DNS)
+//	R9  time.AfterFunc(...)                            -> simhook.AfterFunc(...): the simulator adds a
+//	    few ns, different for every timer, so that no two transaction timers expire in one
+//	    instant (the order of their callbacks would be the Go runtime's, not the seed's)
 //	R7  `select` over receive cases only (no default)  -> the simulator chooses which READY
 //	    case runs when several are ready (the others' channels are nil for that round)
 //
@@ -72,7 +75,7 @@ type edit struct {
 	text       string
 }
 
-type counts struct{ R1, R2, R3, R6, R7, R8 int }
+type counts struct{ R1, R2, R3, R6, R7, R8, R9 int }
 
 func die(f string, a ...any) {
 	fmt.Fprintf(os.Stderr, "seamgen: "+f+"\n", a...)
@@ -175,6 +178,7 @@ func main() {
 			total.R6 += c.R6
 			total.R7 += c.R7
 			total.R8 += c.R8
+			total.R9 += c.R9
 			sites = append(sites, ss...)
 			if len(edits) == 0 {
 				continue
@@ -198,6 +202,9 @@ func main() {
 	}
 	if total.R8 == 0 {
 		die("rule R8 matched nothing (net.ResolveUDPAddr / net.ResolveIPAddr)")
+	}
+	if total.R9 == 0 {
+		die("rule R9 matched nothing (time.AfterFunc)")
 	}
 	if total.R3 == 0 {
 		die("rule R3 matched nothing (range over map)")
@@ -252,11 +259,11 @@ func main() {
 	}
 	sort.Strings(sites)
 	rb, _ := json.MarshalIndent(map[string]any{
-		"R1": total.R1, "R2": total.R2, "R3": total.R3, "R6": total.R6, "R7": total.R7, "R8": total.R8, "map_range_and_select_sites": sites,
+		"R1": total.R1, "R2": total.R2, "R3": total.R3, "R6": total.R6, "R7": total.R7, "R8": total.R8, "R9": total.R9, "map_range_and_select_sites": sites,
 	}, "", " ")
 	_ = os.WriteFile(filepath.Join(*out, "seamgen.json"), rb, 0o644)
 	if !*quiet {
-		fmt.Printf("seamgen: R1=%d R2=%d R3=%d R6=%d R7=%d R8=%d files=%d\n", total.R1, total.R2, total.R3, total.R6, total.R7, total.R8, len(overlay))
+		fmt.Printf("seamgen: R1=%d R2=%d R3=%d R6=%d R7=%d R8=%d R9=%d files=%d\n", total.R1, total.R2, total.R3, total.R6, total.R7, total.R8, total.R9, len(overlay))
 	}
 }
 
@@ -285,6 +292,10 @@ func apply(src []byte, edits []edit) []byte {
 }
 
 func isNetSel(e ast.Expr, name string, info *types.Info) (*ast.Ident, bool) {
+	return isPkgSel(e, "net", name, info)
+}
+
+func isPkgSel(e ast.Expr, pkg, name string, info *types.Info) (*ast.Ident, bool) {
 	sel, ok := e.(*ast.SelectorExpr)
 	if !ok || sel.Sel.Name != name {
 		return nil, false
@@ -294,7 +305,7 @@ func isNetSel(e ast.Expr, name string, info *types.Info) (*ast.Ident, bool) {
 		return nil, false
 	}
 	pn, ok := info.Uses[id].(*types.PkgName)
-	if !ok || pn.Imported().Path() != "net" {
+	if !ok || pn.Imported().Path() != pkg {
 		return nil, false
 	}
 	return id, true
@@ -334,6 +345,7 @@ func rewriteFile(fset *token.FileSet, f *ast.File, src []byte, info *types.Info,
 	off := func(p token.Pos) int { return tf.Offset(p) }
 	text := func(n ast.Node) string { return string(src[off(n.Pos()):off(n.End())]) }
 
+	timeName := ""
 	netName := ""
 	for _, is := range f.Imports {
 		if is.Path.Value == `"net"` {
@@ -378,6 +390,11 @@ func rewriteFile(fset *token.FileSet, f *ast.File, src []byte, info *types.Info,
 			if id, ok := isNetSel(x.Fun, "ListenUDP", info); ok {
 				edits = append(edits, edit{off(id.Pos()), off(id.End()), "simhook"})
 				c.R2++
+			}
+			if id, ok := isPkgSel(x.Fun, "time", "AfterFunc", info); ok {
+				edits = append(edits, edit{off(id.Pos()), off(id.End()), "simhook"})
+				timeName = id.Name
+				c.R9++
 			}
 			for _, fn := range []string{"ResolveUDPAddr", "ResolveIPAddr"} {
 				if id, ok := isNetSel(x.Fun, fn, info); ok {
@@ -527,6 +544,9 @@ func rewriteFile(fset *token.FileSet, f *ast.File, src []byte, info *types.Info,
 			`; import simhook "` + module + `/internal/simhook"`})
 		if netName != "" && netName != "_" && netName != "." {
 			edits = append(edits, edit{len(src), len(src), "\nvar _ " + netName + ".Addr\n"})
+		}
+		if timeName != "" {
+			edits = append(edits, edit{len(src), len(src), "\nvar _ " + timeName + ".Duration\n"})
 		}
 	}
 	return edits, c, sites
